@@ -512,14 +512,101 @@ const prelude = `(declare-datatype MInt ((mkMInt (mi!nil Bool) (mi!val Int))))
 `
 
 func (vc *VC) queryFor(o *Obligation) string {
+	// body first: declarations, assumptions, goal
+	var body strings.Builder
+	for _, d := range vc.eng.verdictDecls {
+		body.WriteString(d)
+		body.WriteByte('\n')
+	}
+	for _, d := range vc.rawDecls {
+		body.WriteString(d)
+		body.WriteByte('\n')
+	}
+	for _, d := range vc.decls {
+		body.WriteString(d)
+		body.WriteByte('\n')
+	}
+	// cover obligations ask for satisfiability; quantified assumptions make solvers answer
+	// "unknown", so a cover checks that the quantifier-free part of the assumptions is consistent.
+	skipQ := func(a string) bool {
+		return o.Cover && (strings.Contains(a, "(forall ") || strings.Contains(a, "(exists "))
+	}
+	var facts strings.Builder
+	for _, a := range vc.asserts[:o.NAssert] {
+		if skipQ(a) {
+			continue
+		}
+		facts.WriteString("(assert ")
+		facts.WriteString(a)
+		facts.WriteString(")\n")
+	}
+	if o.Cover {
+		fmt.Fprintf(&facts, "(assert %s)\n", o.Goal)
+	} else {
+		fmt.Fprintf(&facts, "(assert (not %s))\n", o.Goal)
+	}
+	// symbols used by the facts and the goal: axioms (preamble assertions, global facts) are included
+	// only when they share a declared symbol with them - unrelated quantified axioms slow the solvers
+	used := map[string]bool{}
+	addSyms := func(text string) {
+		for _, tok := range strings.FieldsFunc(text, func(c rune) bool { return c == '(' || c == ')' || c == ' ' || c == '\n' }) {
+			used[tok] = true
+		}
+	}
+	addSyms(facts.String())
+	relevant := func(ax string) bool {
+		for _, tok := range strings.FieldsFunc(ax, func(c rune) bool { return c == '(' || c == ')' || c == ' ' }) {
+			if _, declared := vc.eng.specs.funSigs[tok]; declared && used[tok] {
+				return true
+			}
+			if vc.declared[tok] && used[tok] {
+				return true
+			}
+		}
+		return false
+	}
+	var globals []string
+	// two rounds so that axioms pulled in by the first round can pull in related ones
+	for round := 0; round < 2; round++ {
+		globals = globals[:0]
+		for _, a := range vc.globals {
+			if skipQ(a) {
+				continue
+			}
+			if strings.Contains(a, "(forall ") && !relevant(a) {
+				continue
+			}
+			globals = append(globals, a)
+		}
+		for _, g := range globals {
+			addSyms(g)
+		}
+	}
 	var b strings.Builder
 	b.WriteString("(set-option :produce-models true)\n(set-logic ALL)\n")
 	b.WriteString(prelude)
 	b.WriteString(vc.eng.types.declarations())
-	for _, l := range vc.eng.specs.preamble {
-		if !vc.eng.types.sortsKnown(l) {
-			continue // mentions a struct sort that does not occur in this verification
+	var pre []string
+	for round := 0; round < 2; round++ {
+		pre = pre[:0]
+		for _, l := range vc.eng.specs.preamble {
+			if !vc.eng.types.sortsKnown(l) {
+				continue // mentions a struct sort that does not occur in this verification
+			}
+			if strings.HasPrefix(l, "(assert ") {
+				if skipQ(l) || !relevant(l) {
+					continue
+				}
+			}
+			pre = append(pre, l)
 		}
+		for _, l := range pre {
+			if strings.HasPrefix(l, "(assert ") {
+				addSyms(l)
+			}
+		}
+	}
+	for _, l := range pre {
 		b.WriteString(l)
 		b.WriteByte('\n')
 	}
@@ -541,55 +628,13 @@ func (vc *VC) queryFor(o *Obligation) string {
 		bs := sanitize(s)
 		fmt.Fprintf(&b, "(declare-fun box!%s (%s) Int)\n(declare-fun unbox!%s (Int) %s)\n", bs, s, bs, s)
 	}
-	for _, d := range vc.eng.verdictDecls {
-		b.WriteString(d)
-		b.WriteByte('\n')
-	}
-	for _, d := range vc.rawDecls {
-		b.WriteString(d)
-		b.WriteByte('\n')
-	}
-	for _, d := range vc.decls {
-		b.WriteString(d)
-		b.WriteByte('\n')
-	}
-	// cover obligations ask for satisfiability; quantified assumptions make solvers answer
-	// "unknown", so a cover checks that the quantifier-free part of the assumptions is consistent.
-	skipQ := func(a string) bool {
-		return o.Cover && (strings.Contains(a, "(forall ") || strings.Contains(a, "(exists "))
-	}
-	if o.Cover {
-		out := b.String()
-		b.Reset()
-		for _, l := range strings.Split(out, "\n") {
-			if strings.HasPrefix(l, "(assert ") && skipQ(l) {
-				continue
-			}
-			b.WriteString(l)
-			b.WriteByte('\n')
-		}
-	}
-	for _, a := range vc.globals {
-		if skipQ(a) {
-			continue
-		}
+	b.WriteString(body.String())
+	for _, a := range globals {
 		b.WriteString("(assert ")
 		b.WriteString(a)
 		b.WriteString(")\n")
 	}
-	for _, a := range vc.asserts[:o.NAssert] {
-		if skipQ(a) {
-			continue
-		}
-		b.WriteString("(assert ")
-		b.WriteString(a)
-		b.WriteString(")\n")
-	}
-	if o.Cover {
-		fmt.Fprintf(&b, "(assert %s)\n", o.Goal)
-	} else {
-		fmt.Fprintf(&b, "(assert (not %s))\n", o.Goal)
-	}
+	b.WriteString(facts.String())
 	b.WriteString("(check-sat)\n")
 	return b.String()
 }
